@@ -30,18 +30,24 @@ Definition is_semi_model (g : mgraph) (p : list nat) : bool :=
   | _ => forallb (fun a => memb a (V g)) p && nodupb p && chainb (semi_ok g) p
   end.
 
-(* all extensions (suffixes after [cur]) of the simple path whose node set is [vis], with at most [k] more edges,
-   ending in a target; networkx's rule "do not expand once every target is on the path" is kept *)
-Fixpoint semi_ext (g : mgraph) (k : nat) (T vis : list nat) (cur : nat) : list (list nat) :=
+(* generic depth-first enumeration of simple paths (networkx all_simple_paths skeleton):
+   all suffixes q after [cur] with at most [k] edges, nodes outside [vis], consecutive nodes related by [ok],
+   ending in a node with [tgt]; [stop vis] = "every target is already on the path, do not expand" *)
+Fixpoint gen_ext (vs : list nat) (ok : nat -> nat -> bool) (tgt : nat -> bool) (stop : list nat -> bool)
+                 (k : nat) (vis : list nat) (cur : nat) : list (list nat) :=
   match k with
   | 0 => []
   | S k' =>
       flat_map (fun w =>
-                  (if memb w T then [[w]] else []) ++
-                  (if subsetb T (w :: vis) then []
-                   else map (cons w) (semi_ext g k' T (w :: vis) w)))
-               (filter (fun w => semi_ok g cur w && negb (memb w vis)) (V g))
+                  (if tgt w then [[w]] else []) ++
+                  (if stop (w :: vis) then []
+                   else map (cons w) (gen_ext vs ok tgt stop k' (w :: vis) w)))
+               (filter (fun w => ok cur w && negb (memb w vis)) vs)
   end.
+
+(* semi-directed extensions ending in a target; networkx's rule "do not expand once every target is on the path" is kept *)
+Definition semi_ext (g : mgraph) (k : nat) (T vis : list nat) (cur : nat) : list (list nat) :=
+  gen_ext (V g) (semi_ok g) (fun w => memb w T) (fun vis' => subsetb T vis') k vis cur.
 
 Definition semi_enum (g : mgraph) (s : nat) (T : list nat) (k : nat) : list (list nat) :=
   map (cons s) (semi_ext g k T [s] s).
@@ -57,13 +63,8 @@ Definition poss_anc (g : mgraph) (s : nat) : list nat :=
   closure Nat.eqb (fun v => filter (fun w => semi_ok g w v) (V g)) [s] (length (V g)).
 
 (* the brute-force side of the tie: every simple path of the adjacency graph from s (any length >= 0) *)
-Fixpoint simple_ext (g : mgraph) (k : nat) (vis : list nat) (cur : nat) : list (list nat) :=
-  match k with
-  | 0 => []
-  | S k' =>
-      flat_map (fun w => [w] :: map (cons w) (simple_ext g k' (w :: vis) w))
-               (filter (fun w => adjacent g cur w && negb (memb w vis)) (V g))
-  end.
+Definition simple_ext (g : mgraph) (k : nat) (vis : list nat) (cur : nat) : list (list nat) :=
+  gen_ext (V g) (adjacent g) (fun _ => true) (fun _ => false) k vis cur.
 Definition all_simple_paths (g : mgraph) (s : nat) : list (list nat) :=
   [s] :: map (cons s) (simple_ext g (length (V g)) [s] s).
 
